@@ -7,9 +7,11 @@ import re
 
 import canmatrix.formats
 from lib import matrices as M
+from lib import dbcsnap
 from props import c14
 
 PID = "C20"
+EXTRA_PROPS = ("C05f",)
 RULE = ("case 'bad' = (well-formed DBC or SYM text: canmatrix's own output for a generated matrix (long names, multiplexing, "
         "attributes, comments over several lines, value tables, several senders) or a sample file shipped under tests/files; a "
         "multiset of 1..6 malformed lines of the three fault kinds (unknown keyword, truncated statement, wrong field type) inserted "
@@ -27,16 +29,16 @@ RULE = ("case 'bad' = (well-formed DBC or SYM text: canmatrix's own output for a
         "cut before their first number is complete (thorough: every truncation of every statement of three DBC texts). "
         "Non-trivial = every distinct case.")
 EXHAUSTIVE = {"quick": False, "thorough": False}
-PARTIAL = ["only the control skeleton of the DBC reader (dispatcher, per-line error handling as a fold) is modelled and proved; that "
-           "each real handler writes nothing before a failing pattern match, the multi-line comment state and the post-processing "
-           "are tied by this correspondence check", "the SYM reader is tied by correspondence only (no Lean model of its line parser)"]
+PARTIAL = ["theorems: a bad line is a no-op of the abstract reader (Props/C20) and of the model of the whole reader where it is skipped, "
+           "counted only where the handler raises (Props/C05f); the whole reader (handlers, multi-line comment state, lookups) is a model "
+           "tied by this correspondence check (op 'whole'), the post-processing by observation only", "the SYM reader is tied by correspondence only (no Lean model of its line parser)"]
 ASSUMPTIONS = ["a line that opens a quoted comment without closing it starts a multi-line comment by the format's rules and is not a "
                "'truncated statement'; '[name' in SYM starts a new section", "malformed lines are inserted as whole lines",
                "a statement cut off from the file's own text counts as truncated when the text alone says so: no ';' left (statements that end "
                "with ';'), no sender left (BO_), unit still open (SG_); a SYM Var=/Mux= line cut behind its length field is a complete "
                "statement with fewer switches and is not inserted"]
 TRUSTED = ["regular expressions of the readers"]
-CORRESPONDENCE = "DBC reader stdout ('error with line no') per malformed line == CanVerif.printsError (Model/DbcLines.lean)"
+CORRESPONDENCE = "DBC files with malformed lines / cut at a byte read by dbc.load == CanVerif.Dbc.readFile (Model/DbcFile.lean: matrix at the end of the line loop, printed errors); DBC reader stdout ('error with line no') per malformed line == CanVerif.printsError (Model/DbcLines.lean)"
 
 SAMPLES = None
 
@@ -232,7 +234,7 @@ def gen_text(rng, fmt):
     return text
 
 
-def gen(rng, tier, shard, nshards):
+def _gen_base(rng, tier, shard, nshards):
     total = {"quick": 500, "thorough": 6000}[tier] // nshards + 1
     for _ in range(total):
         fmt = "dbc" if rng.random() < 0.7 else "sym"
@@ -388,6 +390,37 @@ def gen(rng, tier, shard, nshards):
                     yield {"op": "bad", "c": {"fmt": "dbc", "text": text, "ins": [[rng.choice(busy), st[:k], "trunc"]], "bad": [st[:k]]}}
 
 
+def modified_text(c, op):
+    """the text of a 'bad' case with its lines inserted / of a 'cut' case cut at its position"""
+    if op == "cut":
+        return c["text"].encode(c.get("enc") or "iso-8859-1")[:c["k"]]
+    lines = c["text"].split("\n")
+    ins = sorted(enumerate(c["ins"]), key=lambda t: t[1][0])
+    out_lines = []
+    j = 0
+    for p in range(len(lines) + 1):
+        while j < len(ins) and ins[j][1][0] == p:
+            out_lines.append(ins[j][1][1])
+            j += 1
+        if p < len(lines):
+            out_lines.append(lines[p])
+    return "\n".join(out_lines).encode("iso-8859-1", "replace")
+
+
+def gen(rng, tier, shard, nshards):
+    """every DBC case is also read as a whole by the model of the reader (op 'whole': Model/DbcFile.lean against dbc.load, the
+    matrix at the end of the line loop and the number of printed errors) - one in three of the cut cases, every bad-line case"""
+    n = 0
+    for case in _gen_base(rng, tier, shard, nshards):
+        yield case
+        c = case["c"]
+        if c["fmt"] != "dbc" or c.get("enc"):
+            continue
+        n += 1
+        if case["op"] == "bad" and (tier == "quick" or n % 4 == 0) or case["op"] == "cut" and n % 3 == 0:
+            yield {"op": "whole", "c": {"fmt": "dbc", "of": case["op"], "text": c["text"], "ins": c.get("ins"), "k": c.get("k")}}
+
+
 def neighbours(case, rng, shard, nshards):
     return []
 
@@ -399,6 +432,15 @@ def sig_key(s):
 def observe(case):
     c = case["c"]
     fmt = c["fmt"]
+    if case["op"] == "whole":
+        data = modified_text(c, c["of"])
+        text = data.decode("iso-8859-1")
+        if any(ch in text for ch in "\x0b\x0c\x1c\x1d\x1e\x1f\x85\xa0"):
+            return {"skipped": "blank characters beyond the ASCII ones (str.strip and bytes.strip differ)"}
+        o = dbcsnap.load_snapshot(data, "iso-8859-1")
+        if o["snap"] is None:
+            return {"skipped": "no snapshot: " + str(o["exc"])}
+        return {"lines": o["lines"], "snap": o["snap"]}
     base_db, _ = load(c["text"], fmt, c.get("enc"))
     if case["op"] == "bad":
         lines = c["text"].split("\n")
@@ -485,6 +527,10 @@ def observe(case):
 
 
 def project(impl):
+    if "skipped" in impl:
+        return {}
+    if "snap" in impl:
+        return {"snap": impl["snap"]}
     if "kept" in impl:
         return {"raised": impl["raised"], "kept": impl["kept"]}
     r = {"raised": impl["raised"], "same": impl["same"]}
